@@ -44,10 +44,47 @@ theorem utf8Units_enc (n : List Nat) (hn : ∀ c ∈ n, IsScalar c) :
     subst this
     exact ⟨it' ++ b, by rw [enc_cons]; exact hstep, by rw [unitsOf_append, hu, hbu]; simp⟩
 
+/-- the check in front of the bulk writes accepts the UTF-16 form of every sequence of XML characters -/
+theorem checkLoop_legal (ver : Ver) (n : List Nat) (hn : ∀ c ∈ n, legalChar ver c = true) :
+    checkLoop (utf16Encode n) false = .ok () := by
+  induction n with
+  | nil => rfl
+  | cons c cs ih =>
+    have ihh := ih (fun x hx => hn x (by simp [hx]))
+    have hl := hn c (by simp)
+    have hs := legal_scalar ver c hl
+    rw [enc_cons]
+    by_cases hb16 : c < 0x10000
+    · have h16 : utf16EncodeOne c = [c] := ((decodeHead_utf16Encode c [] hs).1 hb16).1
+      obtain ⟨hs1, hs2⟩ := hs
+      have h1 : isHigh c = false := by simp [isHigh]; omega
+      have h2 : isLow c = false := by simp [isLow]; omega
+      have h3 : ¬ (c = 0 ∨ c ≥ 0xFFFE) := by
+        cases ver <;> simp only [legalChar, Bool.or_eq_true, Bool.and_eq_true, decide_eq_true_eq, beq_iff_eq] at hl <;> omega
+      rw [h16]
+      simp only [List.cons_append, List.nil_append, checkLoop, h1, h2, h3, Bool.false_eq_true, ↓reduceIte, ihh]
+    · have hge : 0x10000 ≤ c := by omega
+      have h16 := ((decodeHead_utf16Encode c (utf16Encode cs) hs).2 hge).1
+      obtain ⟨hs1, hs2⟩ := hs
+      have h1 : isHigh (0xD800 + (c - 0x10000) / 1024) = true := by simp [isHigh]; omega
+      have h2 : isLow (0xDC00 + (c - 0x10000) % 1024) = true := by simp [isLow]; omega
+      rw [h16]
+      simp only [List.cons_append, List.nil_append, checkLoop, h1, h2, ↓reduceIte, ihh]
+
+theorem checkBulk_legal (ver : Ver) (e : Enc) (n : List Nat) (hn : ∀ c ∈ n, legalChar ver c = true) :
+    checkBulk e (utf16Encode n) = .ok () := by
+  unfold checkBulk
+  cases e.fx.bulkCheck
+  · rfl
+  · simp only [↓reduceIte]; exact checkLoop_legal ver n hn
+
 /-- a name is written as itself in every encoding -/
 theorem wName_enc (ver : Ver) (e : Enc) (n : List Nat) (hn : NameOk ver e n) :
     ∃ it, wName e (utf16Encode n) = .ok it ∧ unitsOf it = encodeOut e.kind n := by
   unfold wName
+  rw [checkBulk_legal ver e n (fun c hc => (hn c hc).1)]
+  simp only [bind, Except.bind]
+  unfold wNameRaw
   cases hk : e.kind with
   | utf8 =>
     obtain ⟨it, h1, h2⟩ := utf8Units_enc n (fun c hc => legal_scalar ver c (hn c hc).1)
